@@ -38,6 +38,8 @@ var scopes = []*scope{
 		MinRules: 4, MaxRules: 4, Layouts: []int{5}, MinPeers: 4, MaxPeers: 4},
 	{Name: "1-2rules/unsorted-values/zones", Tiers: "quick", Roles: allRoles, Counts: []int{1, 2}, Cons: []int{0, 13, 14}, Locs: []int{0, 1},
 		MinRules: 1, MaxRules: 2, Layouts: []int{0}, MinPeers: 2, MaxPeers: 3},
+	{Name: "1-2rules/unknown-store", Tiers: "quick", Roles: allRoles, Counts: []int{1, 2, 3}, Cons: []int{0, 1, 4}, Locs: []int{0, 1},
+		MinRules: 1, MaxRules: 2, Layouts: []int{7}, MinPeers: 2, MaxPeers: 4},
 	{Name: "1-2rules/iso/no-zone", Tiers: "quick", Roles: allRoles, Counts: []int{1, 2, 3}, Cons: []int{0, 4}, Locs: []int{0, 1, 2, 3},
 		MinRules: 1, MaxRules: 2, Layouts: []int{6}, MinPeers: 2, MaxPeers: 4},
 	// ---- thorough ----
